@@ -10,7 +10,7 @@ from decimal import Decimal
 from fractions import Fraction
 
 from . import tlc, decfam, decio
-from .core import Outcome, ensure_repo_on_path, finish, pmap, Machinery
+from .core import Outcome, ensure_repo_on_path, finish, pmap, Machinery, chunked
 from .pdgdata import tables as pdg_tables
 
 PROP = "C16"
@@ -141,6 +141,7 @@ def corrupt(c):
     return False
 
 
+@chunked()
 def judge(cases, wd, o, what):
     tf = wd / f"trace_{len(list(wd.glob('trace_*.json')))}.json"
     strip = ("text", "stdout", "call", "error", "cid")
